@@ -316,6 +316,8 @@ type dispRecWriter struct {
 	seq int // request number (own writers), 0 for writers installed by handlers
 	alt int
 	hdr http.Header
+
+	written int // body bytes accepted so far
 }
 
 func (w *dispRecWriter) tag() string {
@@ -332,6 +334,15 @@ func (w *dispRecWriter) WriteHeader(code int) {
 	w.cs.log = append(w.cs.log, "WH:"+w.tag()+":"+strconv.Itoa(code))
 }
 func (w *dispRecWriter) Write(b []byte) (int, error) {
+	// like the writer of a net/http server: once a Content-Length is declared, body bytes beyond it are refused
+	// (http.ErrContentLength).  Nothing in these engines declares one, so on the unchanged rux this never triggers.
+	if cl := w.hdr.Get("Content-Length"); cl != "" {
+		if n, err := strconv.Atoi(cl); err == nil && w.written+len(b) > n {
+			w.cs.log = append(w.cs.log, "WX:"+w.tag()+":"+hx(string(b)))
+			return 0, http.ErrContentLength
+		}
+	}
+	w.written += len(b)
 	w.cs.log = append(w.cs.log, "W:"+w.tag()+":"+hx(string(b)))
 	return len(b), nil
 }
